@@ -298,18 +298,22 @@ def AInvO (o : Option State) : Prop := ∀ s', o = some s' → AInv s'
 theorem AInvO.of_agEq {s : State} {o : Option State} (h : AInv s) (he : AgEqO s o) : AInvO o := by
   intro s' e; show AInvL s'.agents; rw [he s' e]; exact h
 
-theorem ainv_wakeAgent (s : State) (h : AInv s) : AInvO (wakeAgent s) := by
+theorem pickAgent_mem {lifo : Bool} {p : Agent → Bool} {l : List Agent} {a : Agent} (h : pickAgent lifo p l = some a) : a ∈ l := by
+  unfold pickAgent at h
+  split at h
+  · exact List.mem_reverse.mp (List.mem_of_find?_eq_some h)
+  · exact List.mem_of_find?_eq_some h
+
+theorem ainv_wakeAgent (l : Bool) (s : State) (h : AInv s) : AInvO (wakeAgent l s) := by
   unfold wakeAgent
   split
   · simp
   · rename_i a hf
-    have ha : a ∈ s.agents := List.mem_of_find?_eq_some hf
+    have ha : a ∈ s.agents := pickAgent_mem hf
     dsimp only
     split
     · rename_i hst
       rw [ainvO_some]
-      show AInvL (answer _ _ _ _).agents
-      rw [answer_agents]
       apply ainv_of_agv _ h
       have hr : a.st = .ready := by simpa using hst
       exact agv_setAgent s a _ h.nodup ha rfl (by simp only [isLE, hr]; rfl)
@@ -318,6 +322,18 @@ theorem ainv_wakeAgent (s : State) (h : AInv s) : AInvO (wakeAgent s) := by
       rw [answer_agents]
       apply ainv_of_agv _ h
       exact agv_setAgent s a _ h.nodup ha rfl (by simp [isLE])
+
+theorem ainv_renderWoken (l : Bool) (s : State) (h : AInv s) : AInvO (renderWoken l s) := by
+  unfold renderWoken
+  split
+  · simp
+  · rename_i a hf
+    have ha : a ∈ s.agents := pickAgent_mem hf
+    rw [ainvO_some]
+    show AInvL (answer _ _ _ _).agents
+    rw [answer_agents]
+    apply ainv_of_agv _ h
+    exact agv_setAgent s a _ h.nodup ha rfl (by simp [isLE])
 
 theorem findAgent_mem {s : State} {n : String} {a : Agent} (h : findAgent s n = some a) : a ∈ s.agents :=
   List.mem_of_find?_eq_some h
@@ -651,34 +667,38 @@ theorem ainvO_platformMove (lifo : Bool) (s : State) (h : AInv s) : AInvO (platf
        obtain ⟨f, _, hm⟩ := firstSome_spec _ _ _ hs
        exact AInvO.of_agEq h (flightMove_agents s f) s' hm)
 
-theorem ainvO_wakeMove (s : State) (h : AInv s) : AInvO (wakeMove s) := by
+theorem ainvO_wakeMove (l : Bool) (s : State) (h : AInv s) : AInvO (wakeMove l s) := by
   unfold wakeMove
-  refine ainvO_orElse' ?_ (ainv_wakeAgent s h)
+  refine ainvO_orElse' ?_ (ainv_wakeAgent l s h)
   intro s' hs
   show AInvL s'.agents
   rw [wakeRt_agents hs]; exact h
 
 theorem ainvO_progress (v : Nat) (s : State) (h : AInv s) : AInvO (progress v s) := by
   have hp := fun l => ainvO_platformMove l s h
-  have hw := ainvO_wakeMove s h
+  have hw := fun l => ainvO_wakeMove l s h
   have hk := AInvO.of_agEq h (killMove_agents s)
+  have hr := fun l => ainv_renderWoken l s h
   unfold progress
   splits <;> first
     | exact ainvO_none
     | (rw [ainvO_some]; apply ainv_watchOne; exact h)
-    | exact ainvO_orElse' hw (ainvO_orElse' (hp _) hk)
-    | exact ainvO_orElse' (hp _) (ainvO_orElse' hw hk)
-    | exact ainvO_orElse' (hp _) (ainvO_orElse' hk hw)
+    | exact ainvO_orElse' (ainvO_orElse' (hw _) (ainvO_orElse' (hp _) hk)) (hr _)
+    | exact ainvO_orElse' (ainvO_orElse' (hp _) (ainvO_orElse' (hw _) hk)) (hr _)
+    | exact ainvO_orElse' (ainvO_orElse' (hp _) (ainvO_orElse' hk (hw _))) (hr _)
+    | exact ainvO_orElse' (hr _) (ainvO_orElse' (hw _) (ainvO_orElse' (hp _) hk))
+    | exact ainvO_orElse' (hr _) (ainvO_orElse' (hp _) (ainvO_orElse' (hw _) hk))
+    | exact ainvO_orElse' (hr _) (ainvO_orElse' (hp _) (ainvO_orElse' hk (hw _)))
 
 theorem ainv_settle (v n : Nat) (s : State) (h : AInv s) : AInv (settle v n s) := by
-  induction n generalizing s with
+  induction n generalizing v s with
   | zero => exact h
   | succ n ih =>
     unfold settle
     split
     · exact h
     · rename_i s' hp
-      exact ih s' (ainvO_progress v s h s' hp)
+      exact ih _ s' (ainvO_progress v s h s' hp)
 
 theorem ainv_applyOp (s : State) (o : Op) (h : AInv s) : AInv (applyOp s o) := by
   cases o with
